@@ -278,3 +278,6 @@ def run(ctx):
                    "%s:%s" % (rec["file"], rec["line"]),
                    "the shared state must not be copyable/movable (waiters and callbacks hold its address)")
     ctx.floor("C08.R5", n, 5, "FutureContext records")
+
+
+SWEEP = ["test_future.cpp"]
